@@ -53,8 +53,13 @@ RULES = {
     "(`model = result.model`) straight after the member ran - no break, continue or return can leave the round between the call and "
     "the rebinding; with the early-stop test in between, a manager whose first step reports no change returns its input object, "
     "which for a functional member is not the (unchanged) clone that the member produced - the identity contract of the manager fails",
+    "R13": "a node made for an output slot lives in the graph that lists the output: when a function of the pass modules builds a node, "
+    "adds it to a graph (`<A>.append(node)` / insert_before / insert_after / extend) and stores one of its outputs in an output list "
+    "(`<B>.outputs[i] = …`, `<B>.outputs.append(…)`), <A> and <B> are the same expression - with the enclosing graph (or function) as <A> "
+    "while <B> is the subgraph being fixed, the subgraph lists an output it does not define, produced by a node that sits after the "
+    "control-flow node whose body needs it: ownership and topological order are both broken although the flag is right",
 }
-FLOORS = {"R1": 18, "R2": 40, "R3": 10, "R4": 4, "R5": 1, "R6": 8, "R7": 5, "R8": 2, "R9": 6, "R10": 1, "R11": 1, "R12": 2}
+FLOORS = {"R1": 18, "R2": 40, "R3": 10, "R4": 4, "R5": 1, "R6": 8, "R7": 5, "R8": 2, "R9": 6, "R10": 1, "R11": 1, "R12": 2, "R13": 2}
 EXPLANATION = (
     "For every pass class found under onnx_ir.passes: CFG queries over `call` and every helper it reaches that "
     "writes model state (effect summaries with root tags), relating each write to the flag variables that reach "
@@ -1120,6 +1125,60 @@ def rule_r7(ctx):
                   "collection (own and in callees receiving its owner)", construct=label)
 
 
+def rule_r13(ctx):
+    n = 0
+    for m in ctx.repo.pkg_modules():
+        if not m.name.startswith("onnx_ir.passes") or m.name.endswith("_test"):
+            continue
+        for f in ctx.repo.live(m.all_funcs):
+            if isinstance(f.node, ast.Lambda):
+                continue
+            made = {}  # local name -> statement that builds the node
+            for a in own_nodes(f.node):
+                if isinstance(a, ast.Assign) and len(a.targets) == 1 and isinstance(a.targets[0], ast.Name) and isinstance(a.value, ast.Call) \
+                        and (dotted_of(a.value.func) or "").split(".")[-1] in ("node", "Node"):
+                    made[a.targets[0].id] = a
+            if not made:
+                continue
+            # locals bound to an output of such a node
+            outs = {}
+            for a in own_nodes(f.node):
+                if isinstance(a, ast.Assign) and len(a.targets) == 1 and isinstance(a.targets[0], ast.Name):
+                    for x in ast.walk(a.value):
+                        if isinstance(x, ast.Attribute) and x.attr == "outputs" and isinstance(x.value, ast.Name) and x.value.id in made:
+                            outs[a.targets[0].id] = x.value.id
+            for node_name in made:
+                adds = [c for c in calls_in(f) if isinstance(c.func, ast.Attribute) and c.func.attr in ("append", "insert_before", "insert_after", "extend", "insert")
+                        and not (isinstance(c.func.value, ast.Attribute) and c.func.value.attr in ("outputs", "inputs"))
+                        and any(isinstance(y, ast.Name) and y.id == node_name for a_ in c.args for y in ast.walk(a_))]
+                stores = []
+                for st in own_nodes(f.node):
+                    tgt = val = None
+                    if isinstance(st, ast.Assign) and len(st.targets) == 1 and isinstance(st.targets[0], ast.Subscript) and isinstance(st.targets[0].value, ast.Attribute) \
+                            and st.targets[0].value.attr == "outputs":
+                        tgt, val = st.targets[0].value.value, st.value
+                    elif isinstance(st, ast.Call) and isinstance(st.func, ast.Attribute) and st.func.attr in ("append", "insert", "extend") and isinstance(st.func.value, ast.Attribute) \
+                            and st.func.value.attr == "outputs" and st.args:
+                        tgt, val = st.func.value.value, st.args[-1]
+                    if tgt is None:
+                        continue
+                    from_node = any((isinstance(y, ast.Name) and (outs.get(y.id) == node_name)) or
+                                    (isinstance(y, ast.Attribute) and y.attr == "outputs" and isinstance(y.value, ast.Name) and y.value.id == node_name) for y in ast.walk(val))
+                    if from_node:
+                        stores.append((st, tgt))
+                for st, tgt in stores:
+                    for c in adds:
+                        n += 1
+                        same = norm(c.func.value) == norm(tgt)
+                        ctx.check("R13", f"{f.local}: `{node_name}` is added to the graph whose output it becomes", same, f, c,
+                                  f"`{norm(c)[:70]}` puts the new node into `{norm(c.func.value)}` while its output is stored in `{norm(tgt)}.outputs`: for a subgraph the two differ - "
+                                  "the subgraph lists an output produced by a node of the enclosing graph, placed after the control-flow node that needs it (ownership and order "
+                                  "broken; the modified flag is still right)",
+                                  how="receiver of the call that adds a freshly built node vs receiver of the output list its output is stored in",
+                                  construct=f"node for an output of {norm(tgt)} added to {norm(c.func.value)}")
+    ctx.require(n >= 2, f"only {n} (new node, output slot) pairs found in the pass modules")
+
+
 def run(ctx):
     ef = ctx._shared.get("effects")
     if ef is None:
@@ -1129,6 +1188,7 @@ def run(ctx):
     ctx.tables["pass_classes"] = [c.key for c in passes]
     rule_r11(ctx)
     rule_r12(ctx)
+    rule_r13(ctx)
     from ..shared import rule_s14
 
     rule_s14(ctx, "R10", lambda name: name.startswith("onnx_ir.passes"), "the pass acts on (and reports about) contents the model no longer has")
